@@ -134,6 +134,7 @@ func WorkerMain(t *testing.T) {
 		t.Skip("VSIM_JOB not set")
 		return
 	}
+	defer os.RemoveAll(scratchRoot()) // configuration files, watch trees, condition scripts of this process
 	var job Job
 	if err := json.Unmarshal([]byte(raw), &job); err != nil {
 		emit(map[string]string{"type": "harness_error", "err": "bad VSIM_JOB: " + err.Error()})
@@ -232,6 +233,7 @@ func runOne(t *testing.T, job *Job, idx int, seed uint64, ch *Choices) (res *Run
 			buf := make([]byte, 1<<20)
 			n := runtime.Stack(buf, true)
 			emit(map[string]interface{}{"type": "watchdog", "index": idx, "seed": seed, "stacks": string(buf[:n])})
+			os.RemoveAll(scratchRoot())
 			os.Exit(3)
 		}
 	}()
